@@ -20,7 +20,7 @@ Provides classes for generating and analyzing complex climate networks.
 #  Import essential packages
 #
 
-# import numpy as np
+import numpy as np
 
 from ..core._ext.types import to_cy, MASK, FIELD
 from ._ext.numerics import spearman_corr
@@ -220,9 +220,7 @@ class RainfallClimateNetwork(ClimateNetwork):
 
         m = len(rainfall) * len(rainfall.T)
 
-        onelist = rainfall.reshape(m)
-
-        onelist = onelist[onelist.sort()][0]
+        onelist = np.sort(rainfall.reshape(m))
 
         downlimit = m * event_threshold[0] // 1
 
